@@ -7,6 +7,7 @@ package main
 
 import (
 	"fmt"
+	"go/constant"
 	"go/token"
 	"go/types"
 	"sort"
@@ -162,25 +163,34 @@ func reach(starts []Point, bars []Barrier, stopAt func(ssa.Instruction) bool) *r
 	type item struct {
 		p    Point
 		from ssa.Instruction
+		pred int // index in p.B.Preds of the block we came from, when it matters (phi-valued branch condition); else -1
+	}
+	type stateKey struct {
+		p    Point
+		pred int
 	}
 	var q []item
 	for _, s := range starts {
-		q = append(q, item{s, nil})
+		q = append(q, item{s, nil, -1})
 	}
-	seenPt := map[Point]bool{}
+	seenPt := map[stateKey]bool{}
 	for len(q) > 0 {
 		it := q[0]
 		q = q[1:]
 		p := it.p
 		from := it.from
+		pred := it.pred
+		if p.I != 0 {
+			pred = -1 // started mid-block: the incoming edge is unknown
+		}
 		for {
 			if p.B == nil || p.I >= len(p.B.Instrs) {
 				break
 			}
-			if seenPt[p] {
+			if seenPt[stateKey{p, pred}] {
 				break
 			}
-			seenPt[p] = true
+			seenPt[stateKey{p, pred}] = true
 			in := p.B.Instrs[p.I]
 			if !r.visited[in] {
 				r.visited[in] = true
@@ -206,7 +216,23 @@ func reach(starts []Point, bars []Barrier, stopAt func(ssa.Instruction) bool) *r
 				switch t := in.(type) {
 				case *ssa.If:
 					cond := condOf(t)
+					// a branch on a boolean phi of this very block (x := a || b; if x):
+					// when we know the incoming edge and its phi operand is a
+					// constant, only the consistent successor is feasible
+					only := -1
+					if pred >= 0 {
+						if v, ok := phiCondValue(t, pred); ok {
+							if v {
+								only = 0
+							} else {
+								only = 1
+							}
+						}
+					}
 					for k, s := range p.B.Succs {
+						if only >= 0 && k != only {
+							continue
+						}
 						blocked := false
 						for _, b := range bars {
 							if b.Edge != nil {
@@ -217,11 +243,11 @@ func reach(starts []Point, bars []Barrier, stopAt func(ssa.Instruction) bool) *r
 							}
 						}
 						if !blocked {
-							q = append(q, item{Point{s, 0}, in})
+							q = append(q, item{Point{s, 0}, in, predIndex(s, p.B)})
 						}
 					}
 				case *ssa.Jump:
-					q = append(q, item{Point{p.B.Succs[0], 0}, in})
+					q = append(q, item{Point{p.B.Succs[0], 0}, in, predIndex(p.B.Succs[0], p.B)})
 				}
 				break
 			}
@@ -229,6 +255,65 @@ func reach(starts []Point, bars []Barrier, stopAt func(ssa.Instruction) bool) *r
 		}
 	}
 	return r
+}
+
+// predIndex returns the index of pred in b.Preds when b ends in a branch on a
+// phi defined in b (the only case where the incoming edge matters), else -1.
+func predIndex(b, pred *ssa.BasicBlock) int {
+	if len(b.Instrs) == 0 {
+		return -1
+	}
+	iff, ok := b.Instrs[len(b.Instrs)-1].(*ssa.If)
+	if !ok || condPhi(iff) == nil {
+		return -1
+	}
+	for i, p := range b.Preds {
+		if p == pred {
+			return i
+		}
+	}
+	return -1
+}
+
+// condPhi: the branch condition is (a negation of) a phi defined in the same block.
+func condPhi(iff *ssa.If) *ssa.Phi {
+	v := iff.Cond
+	for {
+		if u, ok := v.(*ssa.UnOp); ok && u.Op == token.NOT {
+			v = u.X
+			continue
+		}
+		break
+	}
+	ph, ok := v.(*ssa.Phi)
+	if !ok || ph.Block() != iff.Block() {
+		return nil
+	}
+	return ph
+}
+
+// phiCondValue evaluates the branch condition for the given incoming edge when
+// the phi operand on that edge is a boolean constant.
+func phiCondValue(iff *ssa.If, pred int) (bool, bool) {
+	ph := condPhi(iff)
+	if ph == nil || pred < 0 || pred >= len(ph.Edges) {
+		return false, false
+	}
+	k, ok := ph.Edges[pred].(*ssa.Const)
+	if !ok || k.Value == nil || k.Value.Kind() != constant.Bool {
+		return false, false
+	}
+	val := constant.BoolVal(k.Value)
+	v := iff.Cond
+	for {
+		if u, ok := v.(*ssa.UnOp); ok && u.Op == token.NOT {
+			val = !val
+			v = u.X
+			continue
+		}
+		break
+	}
+	return val, true
 }
 
 func entryPoint(fn *ssa.Function) []Point {
